@@ -683,7 +683,7 @@ for _r in OP_RULES:
 FAULT_NAMES = list(FAULTS)
 
 PRIOR_STATES = ["absent", "empty_dir", "previous_generation", "user_files"]
-C17_CORPUS = ["W3-chains-diamonds-shared", "W5-upload-scalars-mixin", "W11-graphqlschema-py", "W8-multi-file-tree",
+C17_CORPUS = ["W3-chains-diamonds-shared", "W15-custom-ops-fragments-only", "W11-graphqlschema-py", "W5-upload-scalars-mixin", "W8-multi-file-tree",
               "W12-config-5-frags", "W11-graphqlschema-graphql", "W4-input-defaults", "W10-plugins-3"]
 
 
